@@ -142,38 +142,7 @@ def run(ctx) -> Result:
     res.check(good, "G2", "ScoringScheme.__rmul__:delegates", rmul.loc(), ok_detail="k * scheme == scheme * k",
               bad_detail=f"__rmul__ does not delegate to __mul__: {src(body[0]) if body else ''}")
 
-    # ------------------------------------------------------------------ G3
-    gen = proj.method(cls, "__is_equivalent_to_generic")
-    res.saw(gen)
-    pool = _pool(ctx.thorough)
-    mism = {3: None, 6: None}
-    count = 0
-    for stop in (3, 6):
-        for p1, p2 in itertools.product(pool, repeat=2):
-            count += 1
-            got = _eval_equiv(gen, p1, p2, stop)
-            want = _proportional(p1, p2, stop)
-            if got != want and mism[stop] is None:
-                mism[stop] = (p1, p2, got, want)
-    for stop in (3, 6):
-        res.check(mism[stop] is None, "G3", f"__is_equivalent_to_generic:stop={stop}", gen.loc(),
-                  ok_detail=f"{len(pool) ** 2} ordered pairs of penalty tables agree with the definition",
-                  bad_detail=(f"pen1={mism[stop][0]} pen2={mism[stop][1]}: code says {mism[stop][2]}, definition "
-                              f"(positive multiple on both vectors, first {stop} entries) says {mism[stop][3]}")
-                  if mism[stop] else "")
-    res.extra["equivalence_pairs_evaluated"] = count
-    for name, stop in (("is_equivalent_to", 6), ("is_equivalent_to_on_complete_rankings_only", 3)):
-        m = proj.method(cls, name)
-        res.saw(m)
-        body = m.body_without_docstring()
-        good = len(body) == 1 and isinstance(body[0], ast.Return) and isinstance(body[0].value, ast.Call) \
-            and isinstance(body[0].value.func, ast.Attribute) \
-            and proj.unmangle(body[0].value.func.attr) == "__is_equivalent_to_generic" \
-            and src(body[0].value.func.value) == "self" and len(body[0].value.args) == 2 \
-            and src(body[0].value.args[0]) == m.param_names[1] and isinstance(body[0].value.args[1], ast.Constant) \
-            and body[0].value.args[1].value == stop
-        res.check(good, "G3", f"{name}:stop", m.loc(), ok_detail=f"compares the first {stop} entries of both vectors",
-                  bad_detail=f"does not call the generic test with (other, {stop}): {src(body[0]) if body else ''}")
+    check_equivalence(res, proj, ctx.thorough, "G3")
 
     # ------------------------------------------------------------------ G4
     for name, (table, nick) in PRESETS.items():
@@ -231,6 +200,44 @@ def run(ctx) -> Result:
     res.not_decided.append("homogeneity of Kemeny scores under scaling (linear algebra over vdot, not code shape)")
     res.not_decided.append("exactness of float ratios in the proportionality test")
     return res
+
+
+def check_equivalence(res: Result, proj, thorough: bool, rule: str):
+    """G3 (shared with C10/K4, C12/B5, C14/A5): the equivalence test the applicability guards rely on."""
+    cls = proj.cls(MOD, "ScoringScheme")
+    # ------------------------------------------------------------------ G3
+    gen = proj.method(cls, "__is_equivalent_to_generic")
+    res.saw(gen)
+    pool = _pool(thorough)
+    mism = {3: None, 6: None}
+    count = 0
+    for stop in (3, 6):
+        for p1, p2 in itertools.product(pool, repeat=2):
+            count += 1
+            got = _eval_equiv(gen, p1, p2, stop)
+            want = _proportional(p1, p2, stop)
+            if got != want and mism[stop] is None:
+                mism[stop] = (p1, p2, got, want)
+    for stop in (3, 6):
+        res.check(mism[stop] is None, rule, f"__is_equivalent_to_generic:stop={stop}", gen.loc(),
+                  ok_detail=f"{len(pool) ** 2} ordered pairs of penalty tables agree with the definition",
+                  bad_detail=(f"pen1={mism[stop][0]} pen2={mism[stop][1]}: code says {mism[stop][2]}, definition "
+                              f"(positive multiple on both vectors, first {stop} entries) says {mism[stop][3]}")
+                  if mism[stop] else "")
+    res.extra["equivalence_pairs_evaluated"] = count
+    for name, stop in (("is_equivalent_to", 6), ("is_equivalent_to_on_complete_rankings_only", 3)):
+        m = proj.method(cls, name)
+        res.saw(m)
+        body = m.body_without_docstring()
+        good = len(body) == 1 and isinstance(body[0], ast.Return) and isinstance(body[0].value, ast.Call) \
+            and isinstance(body[0].value.func, ast.Attribute) \
+            and proj.unmangle(body[0].value.func.attr) == "__is_equivalent_to_generic" \
+            and src(body[0].value.func.value) == "self" and len(body[0].value.args) == 2 \
+            and src(body[0].value.args[0]) == m.param_names[1] and isinstance(body[0].value.args[1], ast.Constant) \
+            and body[0].value.args[1].value == stop
+        res.check(good, rule, f"{name}:stop", m.loc(), ok_detail=f"compares the first {stop} entries of both vectors",
+                  bad_detail=f"does not call the generic test with (other, {stop}): {src(body[0]) if body else ''}")
+
 
 
 def _pool(thorough: bool) -> List:
